@@ -103,6 +103,10 @@ func init() {
 	intrinsics["vParseNs"] = func(in *Interp, fn *ssa.Function, a []Value) Value {
 		return ParseInst("2006-01-02T15:04:05Z07:00", a[0].(*smt.Term))
 	}
+	intrinsics["vFormatUTC"] = func(in *Interp, fn *ssa.Function, a []Value) Value {
+		layout := constStr(in, a[0], "vFormatUTC layout")
+		return smt.UF("tformat_"+layoutID(layout), []string{"(_ BitVec 64)", "Bool"}, &smt.Term{K: smt.KStr}, termArg(in, a[1]), smt.True)
+	}
 	intrinsics["vNs"] = func(in *Interp, fn *ssa.Function, a []Value) Value { return timeArg(in, a[0]).Inst }
 	intrinsics["vIsUTC"] = func(in *Interp, fn *ssa.Function, a []Value) Value { return timeArg(in, a[0]).UTC }
 	intrinsics["vClockReads"] = func(in *Interp, fn *ssa.Function, a []Value) Value {
